@@ -67,8 +67,21 @@ pub fn copy_file_bytes(infd: &File, outfd: &File, bytes: u64) -> Result<usize> {
 pub fn copy_file_offset(infd: &File, outfd: &File, bytes: u64, off: i64) -> Result<usize> {
     let mut off_in = off as u64;
     let mut off_out = off as u64;
-    try_copy_file_range(infd, Some(&mut off_in), outfd, Some(&mut off_out), bytes)
-        .unwrap_or_else(|| copy_range_uspace(infd, outfd, bytes as usize, off as usize))
+    let mut copied = 0;
+    // copy_file_range(2) can copy fewer bytes than requested (it always
+    // does for requests of 2GiB or more), so repeat until the block is
+    // complete or the end of the source is reached (an extent may extend
+    // past it). The kernel advances both offsets by the bytes copied.
+    while copied < bytes {
+        let left = bytes - copied;
+        match try_copy_file_range(infd, Some(&mut off_in), outfd, Some(&mut off_out), left) {
+            Some(Ok(0)) => break,
+            Some(Ok(len)) => copied += len as u64,
+            Some(Err(e)) => return Err(e),
+            None => copied += copy_range_uspace(infd, outfd, left as usize, (off as u64 + copied) as usize)? as u64,
+        }
+    }
+    Ok(copied as usize)
 }
 
 /// Guestimate if file is sparse; if it has less blocks that would be
